@@ -449,6 +449,30 @@ def extra_numpy_stream(rng):
                     return '%s: piece differs from numpy' % name
         except Exception as e:
             return '%s raised %r' % (name, e)
+    # an atom whose value is +inf or NaN affects only the cells that contain it
+    try:
+        with warnings.catch_warnings():
+            warnings.simplefilter('ignore')
+            xa = c.Variable(shape=(2,), name='nf_x')
+            ya = c.Variable(shape=(2,), name='nf_y')
+            xa.value = np.array([1.0, 2.0])
+            ya.value = np.array([0.0, 4.0])
+            r = c.relent(xa, ya, elementwise=True)
+            rv = np.asarray(r.value, dtype=float).ravel()
+            if not (rv[0] == np.inf and abs(rv[1] - 2.0 * np.log(2.0 / 4.0)) < 1e-12):
+                return 'relent((1,2),(0,4), elementwise) evaluates to %s; expected [inf, %r]' % (rv.tolist(), 2.0 * np.log(0.5))
+            ua = c.Variable(shape=(2,), name='nf_unassigned')
+            mixed = c.hstack((ua[0] + 1.0, 5.0, 2.0 * xa[1] - 1.0))
+            mv = np.asarray(mixed.value, dtype=float).ravel()
+            if not (np.isnan(mv[0]) and mv[1] == 5.0 and mv[2] == 3.0):
+                return 'the value of (unassigned + 1, 5, 2*x1 - 1) with x1 = 2 is %s; expected [nan, 5, 3]' % mv.tolist()
+            big = c.Variable(shape=(1,), name='nf_big')
+            big.value = np.array([1e4])
+            ov = np.asarray(c.hstack((c.weighted_sum_exp(np.array([1.0]), big), xa[0] + 0.5)).value, dtype=float).ravel()
+            if not (ov[0] == np.inf and ov[1] == 1.5):
+                return 'the value of (exp(1e4), x0 + 0.5) with x0 = 1 is %s; expected [inf, 1.5]' % ov.tolist()
+    except Exception as e:
+        return 'evaluating Expressions with non-finite atoms raised %r' % (e,)
     for name, fe, fn in cases:
         try:
             with warnings.catch_warnings():
